@@ -1,6 +1,7 @@
 package c03
 
 import (
+	"strings"
 	"bytes"
 	"fmt"
 	"unicode/utf16"
@@ -85,6 +86,11 @@ func wstrings() []wcase {
 		{"a+pair+b", []uint16{'a', 0xd83d, 0xde00, 'b'}},
 		{"path", utf16.Encode([]rune(`C:\Users\x y\é.txt`))},
 		{"with-terminator", []uint16{'a', 'b', 0}},
+		// text with a null code unit inside (two lines of OEM output, a multi-string): "any
+		// content" - only terminators at the ends are not part of the text
+		{"embedded-null", []uint16{'a', 0, 'b'}},
+		{"embedded-null+terminator", []uint16{'a', 'b', 0, 'c', 'd', 0}},
+		{"embedded-null-pair", []uint16{'a', 0, 0, 'b', 0xd83d, 0xde00}},
 		{"long", utf16.Encode([]rune(string(bytes.Repeat([]byte{'A'}, 300))))},
 	}
 }
@@ -93,8 +99,9 @@ func wstrings() []wcase {
 // the statement is about what the Demon sends, which is valid UTF-16 text)
 func wantString(units []uint16) string {
 	s := string(utf16.Decode(units))
-	// the teamserver strips NULs (terminators): the visible text is compared
-	return stripNul(s)
+	// terminators (null code units at the ends) are not part of the text; everything
+	// between them is
+	return strings.Trim(s, "\x00")
 }
 
 func stripNul(s string) string {
